@@ -354,6 +354,7 @@ pub fn gen_world(r: &mut Rng) -> Vec<Tree> {
         }
         ops.push(l(vec![n(116u8)]));
     }
+    let mut unsecure_tokens = 0u64;
     let steps = r.range(25, 90);
     for _ in 0..steps {
         let k = r.below(nclients as u64);
@@ -469,7 +470,8 @@ pub fn gen_world(r: &mut Rng) -> Vec<Tree> {
                     // a new attempt in unsecure mode: the client builds its own token (only an unsecure server accepts it)
                     let target = if r.chance(5, 6) { server_addr } else { stranger };
                     let tprot = if r.chance(1, 10) { protocol.wrapping_add(1) } else { protocol };
-                    ops.push(l(vec![n(128u8), n(k), n(now), n(tprot), n(id), addr_tree(&target), b(&r.bytes(256))]));
+                    unsecure_tokens += 1;
+                    ops.push(l(vec![n(128u8), n(k), n(100_000 + unsecure_tokens), n(now), n(tprot), n(id), addr_tree(&target), b(&r.bytes(256))]));
                 } else {
                     // a new attempt with a fresh token
                     let tk = new_token(r, &mut ops, k as usize, now);
